@@ -27,12 +27,12 @@ let parse_scen (s : string) : c10_scen =
       | ["E"; name] -> JStreamEnd (nat_of_int (int_of_string name))
       | _ -> failwith "jitem" in
     ScJson (nat_of_int (int_of_string main), List.map item items)
-  | "O" :: nfin :: ntie :: items ->
+  | "O" :: nfin :: ntie :: sw :: items ->
     let item it = match String.split_on_char '~' it with
       | ["C"; hx] -> OChunk (unhexbytes hx)
       | ["T"] -> OTie
       | _ -> failwith "oitem" in
-    ScStdout (List.map item items, nat_of_int (int_of_string nfin), nat_of_int (int_of_string ntie))
+    ScStdout (List.map item items, nat_of_int (int_of_string nfin), nat_of_int (int_of_string ntie), sw = "1")
   | "R" :: inp :: backup :: temp :: lens :: hx :: [] ->
     ScReplace (nat_of_int (int_of_string inp), nat_of_int (int_of_string backup), nat_of_int (int_of_string temp), chunks_of lens hx)
   | _ -> failwith "scen"
